@@ -111,6 +111,9 @@ def brentsroot(f, bounds, tol=None, verbose=False, return_interval=False):
         tol = D.epsilon(lower_bound.dtype)
     tol = D.ar_numpy.asarray(tol, like=lower_bound)
     a, b = D.ar_numpy.asarray(lower_bound), D.ar_numpy.asarray(upper_bound)
+    # no bracket can become narrower than the spacing of the numbers at its ends: the width of the bracket
+    # is tested against `xtol`, the residual against `tol`
+    xtol = D.ar_numpy.maximum(tol, 4 * D.epsilon(lower_bound.dtype) * D.ar_numpy.maximum(D.ar_numpy.abs(a), D.ar_numpy.abs(b)))
     fa = f(a)
     fb = f(b)
 
@@ -142,8 +145,8 @@ def brentsroot(f, bounds, tol=None, verbose=False, return_interval=False):
         cond1 = not ((3 * a + b) / 4 < s < b or b < s < (3 * a + b) / 4)
         cond2 = D.ar_numpy.abs(s - b) >= D.ar_numpy.abs(b - c) / 2
         cond3 = D.ar_numpy.abs(s - b) >= D.ar_numpy.abs(c - d) / 2
-        cond4 = D.ar_numpy.abs(b - c) < tol
-        cond5 = D.ar_numpy.abs(c - d) < tol
+        cond4 = D.ar_numpy.abs(b - c) < xtol
+        cond5 = D.ar_numpy.abs(c - d) < xtol
         bisect_now = cond1 or (mflag and cond2) or (not mflag and cond3) or (mflag and cond4) or (not mflag and cond5)
         mflag = bisect_now
         if mflag:
@@ -163,16 +166,18 @@ def brentsroot(f, bounds, tol=None, verbose=False, return_interval=False):
         if D.ar_numpy.abs(fa) < D.ar_numpy.abs(fb):
             a, b = b, a
             fa, fb = fb, fa
-        conv = (fb == 0 or fs == 0 or D.ar_numpy.abs(b - a) < tol)
+        conv = (fb == 0 or fs == 0 or D.ar_numpy.abs(b - a) < xtol)
         if numiter >= 64:
             break
     if verbose:
         with numpy.printoptions(precision=17, linewidth=200):
             print(f"[{numiter}] a={D.ar_numpy.to_numpy(a)}, b={D.ar_numpy.to_numpy(b)}, f(a)={D.ar_numpy.to_numpy(fa)}, f(b)={D.ar_numpy.to_numpy(fb)}")
+    # success: a zero to within `tol`, or a sign change located to within `tol` (however steep `f` is there)
+    success = (D.ar_numpy.abs(f(b)) <= tol) | ((fa * fb <= 0) & (D.ar_numpy.abs(b - a) < xtol))
     if return_interval:
-        return b, D.ar_numpy.abs(f(b)) <= tol, (a, b)
+        return b, success, (a, b)
     else:
-        return b, D.ar_numpy.abs(f(b)) <= tol
+        return b, success
 
 
 def brentsrootvec(f, bounds, tol=None, verbose=False, return_interval=False, accepts_mask=False):
@@ -236,6 +241,9 @@ def brentsrootvec(f, bounds, tol=None, verbose=False, return_interval=False, acc
     if verbose:
         print(_f(a))
 
+    # no bracket can become narrower than the spacing of the numbers at its ends: the width of a bracket
+    # is tested against `xtol`, the residual against `tol`
+    xtol = D.ar_numpy.maximum(tol, 4 * D.epsilon(lower_bound.dtype) * D.ar_numpy.maximum(D.ar_numpy.abs(a), D.ar_numpy.abs(b)))
     conv = D.ar_numpy.ones_like(a, dtype=bool)
 
     fa = _f(a)
@@ -254,6 +262,9 @@ def brentsrootvec(f, bounds, tol=None, verbose=False, return_interval=False, acc
     mflag = D.ar_numpy.ones_like(a, dtype=bool, like=upper_bound)
     conv[fa * fb >= 0] = False
     not_conv = D.ar_numpy.logical_not(conv)
+    # a lane that starts from a sign change keeps one: a bracket narrower than `tol` locates the
+    # crossing however steep the function is there
+    bracketed = D.ar_numpy.copy(conv)
     numiter = D.ar_numpy.ones_like(a, dtype=D.autoray.to_backend_dtype('int64', like=upper_bound), like=upper_bound) * 3
     true_conv = D.ar_numpy.abs(fb) <= tol
 
@@ -277,9 +288,9 @@ def brentsrootvec(f, bounds, tol=None, verbose=False, return_interval=False, acc
         mask = D.ar_numpy.logical_or(mask, cond2)
         cond3 = D.ar_numpy.logical_and(D.ar_numpy.logical_not(mflag), D.ar_numpy.abs(s - b) >= D.ar_numpy.abs(c - d) / 2)
         mask = D.ar_numpy.logical_or(mask, cond3)
-        cond4 = D.ar_numpy.logical_and(mflag, D.ar_numpy.abs(b - c) < tol)
+        cond4 = D.ar_numpy.logical_and(mflag, D.ar_numpy.abs(b - c) < xtol)
         mask = D.ar_numpy.logical_or(mask, cond4)
-        cond5 = D.ar_numpy.logical_and(D.ar_numpy.logical_not(mflag), D.ar_numpy.abs(c - d) < tol)
+        cond5 = D.ar_numpy.logical_and(D.ar_numpy.logical_not(mflag), D.ar_numpy.abs(c - d) < xtol)
         mask = D.ar_numpy.logical_or(mask, cond5)
         mask[not_conv] = False
         s[mask] = (a[mask] + b[mask]) / 2
@@ -306,10 +317,10 @@ def brentsrootvec(f, bounds, tol=None, verbose=False, return_interval=False, acc
         a[mask], b[mask] = b[mask], a[mask]
         fa[mask], fb[mask] = fb[mask], fa[mask]
 
-        conv = D.ar_numpy.logical_not(D.ar_numpy.logical_or(D.ar_numpy.logical_or(fb == 0, fs == 0), D.ar_numpy.abs(b - a) < tol))
+        conv = D.ar_numpy.logical_not(D.ar_numpy.logical_or(D.ar_numpy.logical_or(fb == 0, fs == 0), D.ar_numpy.abs(b - a) < xtol))
         conv = conv & (numiter <= 64)
         not_conv = D.ar_numpy.logical_not(conv)
-        true_conv = (D.ar_numpy.abs(fb) <= tol)
+        true_conv = (D.ar_numpy.abs(fb) <= tol) | (bracketed & (D.ar_numpy.abs(b - a) < xtol))
 
     if verbose:
         with numpy.printoptions(precision=17, linewidth=200):
